@@ -134,6 +134,7 @@ func (u *Unit) intrinsic(fr *Frame, st *State, fn *ssa.Function, args []Val, whe
 		c := u.fresh(SInt, "ctx")
 		u.fact(fmt.Sprintf("(assert (> %s 0))", c.S))
 		u.assume(st.pc, Eq(App(SInt, "CtxParent", c), parent))
+		u.assume(st.pc, Not(Eq(c, parent))) // a derived context is a new object
 		u.assume(st.pc, Not(SelectA(u.cancelledArr(st), c)))
 		ctxV := &Scalar{T: c, Typ: sig.Results().At(0).Type(), Origin: "ctx:derived", Aux: args[0]}
 		cancel := &Scalar{T: u.fresh(SInt, "cancelfn"), Typ: sig.Results().At(1).Type(), Origin: "cancel", Aux: ctxV}
